@@ -148,6 +148,16 @@ def generate(rng, n, tier="quick"):
                  "{{#each xs as |v i|}}{{lookup ../ys i}}{{#if (eq i 0)}}z{{/if}}{{/each}}#{{#each o}}{{#each this}}<{{@key}}>{{/each}}{{/each}}#"
                  "{{#each xs as |v i|}}{{lookup ../ys @index}}{{/each}}#{{#each o as |v k|}}{{lookup ../o k}}{{#if (eq k \"k\")}}s{{/if}}{{/each}}]",
                  "[||#nn#Y0zY1#<>#Y0Y1#[p]s]"))
+    # … a collection reached through `@root` whose first key is ALSO the name of a block parameter in scope: `@root.` starts at the
+    # root of the data, a block parameter of that name notwithstanding (as collection of an inner each, as a value, behind ../)
+    rows.append(({"rows": [1, 2], "cols": ["a", "b", "c"]},
+                 "[{{#each rows as |cols|}}{{#each @root.cols as |c i|}}{{i}}{{c}}{{/each}};{{/each}}]", "[0a1b2c;0a1b2c;]"))
+    rows.append(({"rows": [{"id": "r0"}, {"id": "r1"}], "cols": ["a"]},
+                 "[{{#each cols as |rows|}}{{@root.rows.1.id}}|{{#each @root.rows}}{{id}}{{/each}}{{/each}}]", "[r1|r0r1]"))
+    rows.append(({"o": {"k": 1}, "xs": ["p", "q"]},
+                 "[{{#with o as |xs|}}{{#each @root.xs}}{{@index}}{{this}}{{/each}}|{{#each @root/xs as |xs j|}}{{j}}{{xs}}{{/each}}{{/with}}]", "[0p1q|0p1q]"))
+    rows.append(({"m": {"a": 1}, "k": {"x": "X", "y": "Y"}},
+                 "[{{#each m as |v k|}}{{#each @root.k}}{{@key}}={{this}},{{/each}}{{/each}}]", "[x=X,y=Y,]"))
     for k, (data, src, exp) in enumerate(rows):
         case = session({"escape": "none"}, [("main", src)], {"api": "render", "name": "main"}, data)
         case["id"] = "%s-this%02d" % (ID, k)
@@ -160,10 +170,30 @@ def generate(rng, n, tier="quick"):
         L, R = thm_left(r), thm_right(r)
         nel = r.pick([0, 1, 2, 3, 5, 8, 17, 40])
         arr = [r.pick([None, 0, "", "x", [], {"a": 1}, True, [1]]) for _ in range(nel)]
-        src = L + "{{#each v}}A{{/each}}" + R
+        # (… and of C07.each_block_any_body_per_element: ANY body text that begins and ends with a non-whitespace character, has no
+        # `{{` and no backslash)
+        X = "A"
+        if r.chance(0.6):
+            from .C03 import _no_open, rand_text
+            X = _no_open(rand_text(r, r.range(1, 12))).replace("\\", "/")
+            X = r.pick(["a", "<", "}", "\u00e9", "x"]) + X + r.pick(["z", ">", "}", "\u4e2d", "0"])
+        src = L + "{{#each v}}" + X + "{{/each}}" + R
         case = session({"escape": "none"}, [("main", src)], {"api": "render", "name": "main"}, {"v": arr})
         case["id"] = "%s-thm%04d" % (ID, k)
-        out.append((case, {"prov": "thm", "oracle": ["must", L + "A" * nel + R], "len": nel}))
+        out.append((case, {"prov": "thm", "oracle": ["must", L + X * nel + R], "len": nel}))
+    # the family of C07.each_block_index_counts_in_order: L ++ {{#each v}}{{@index}}{{/each}} ++ R for any array under v and any escape
+    # function: esc("0") esc("1") … esc(str(n-1)) in this order (closed form, exact)
+    from .common import escape_of
+    for k in range(60 if tier != "thorough" else 1000):
+        r = rng.fork("thmidx%d" % k)
+        L, R = thm_left(r), thm_right(r)
+        nel = r.pick([0, 1, 2, 3, 5, 11, 12, 40, 101])
+        arr = [r.pick([None, 0, "", "x", [], {"a": 1}, True, [1]]) for _ in range(nel)]
+        escn = r.pick(["none", "mark", "html"])
+        esc = escape_of(escn)
+        case = session({"escape": escn}, [("main", L + "{{#each v}}{{@index}}{{/each}}" + R)], {"api": "render", "name": "main"}, {"v": arr})
+        case["id"] = "%s-thmidx%04d" % (ID, k)
+        out.append((case, {"prov": "thmidx", "oracle": ["must", L + "".join(esc(str(i)) for i in range(nel)) + R], "len": nel}))
     return out
 
 
